@@ -305,7 +305,8 @@ class ModelMixin(ModelMixin2, ModelMixin3):
             return [(True, st)]
         if isinstance(l, NoneV) or isinstance(r, NoneV):
             other = r if isinstance(l, NoneV) else l
-            if isinstance(other, (Unknown, BoolV)):
+            if isinstance(other, (Unknown, BoolV)) or (isinstance(other, ExtV) and other.name.startswith('result:')):
+                # (the result of an opaque library call - `pattern.fullmatch(text)`, `mapping.get(key)` - may be None)
                 s2 = st.copy()
                 self.stats['forks'] += 1
                 return [(True, st), (False, s2)]
